@@ -317,7 +317,7 @@ def fault_bases(tier):
     rich = [(l, s) for l, s in cases if l == "base"]
     shapes = [(l, s) for l, s in cases if l.startswith("shape") and s["cfg"]
               and any(m["symbols"] and m["entry"] for m in s["modules"])]
-    step = max(1, len(shapes) // (6 if tier == "quick" else 40))
+    step = max(1, len(shapes) // (40 if tier == "quick" else 200))
     return rich + shapes[::step]
 
 
